@@ -743,7 +743,7 @@ def random_history(runner, rng, every_step, readers=False):
         x = rng.random()
         if readers:
             # stretch the part of the scale that holds the operations used here
-            x = x * 0.69 if x < 0.9 else 0.87 + (x - 0.9)
+            x = x / 0.9 * 0.69 if x < 0.9 else 0.87 + (x - 0.9)
         if x < 0.14:
             op = ["add", m, i, e, rng.randrange(3)]
         elif x < 0.24:
